@@ -3,6 +3,8 @@ package checks
 import (
 	"strings"
 
+	formula "github.com/aundis/formula"
+
 	"verif/internal/eng"
 	"verif/internal/ref"
 )
@@ -18,13 +20,14 @@ func init() {
 	c := eng.Register(&eng.Check{
 		ID:          "C12",
 		Title:       "Numeric literals denote exactly the decimal number written",
-		Rule:        "every string up to n characters over {0 5 . e + - _ a x} that begins with a digit or '.', and long literals (integer / fraction parts of every length 0..40 in three digit patterns, exponents with up to 40 digits of which at most 3 significant, a separator at every single position of shorter literals): the reference number automaton of the statement decides reject or the exact decimal value; the implementation must agree on accept/reject, on the tree, and on the evaluated value in the contexts [L], [-L], [f(L)], [x?L:L], [(L,L)], [L,L]; distinct = distinct exact values (or 'reject')",
+		Rule:        "every string up to n characters over {0 5 . e + - _ a x} that begins with a digit or '.', and long literals (integer / fraction parts of every length 0..40 in three digit patterns, exponents with up to 40 digits of which at most 3 significant, a separator at every single position of shorter literals and of literals with digit groups of 20 to 257 digits; all pairs and triples of 21 short literal formulas evaluated one after the other by one runner, compared with fresh runners): the reference number automaton of the statement decides reject or the exact decimal value; the implementation must agree on accept/reject, on the tree, and on the evaluated value in the contexts [L], [-L], [f(L)], [x?L:L], [(L,L)], [L,L]; distinct = distinct exact values (or 'reject')",
 		TrustedBase: []string{"internal/ref/tok.go number automaton", "internal/ref/dec.go"},
 		Assumptions: []string{"exponents of more than 17 significant digits are beyond every decimal implementation's range: for those the check only requires an error or a value that behaves like the number written (sign, side of 1, finite, equal to itself) - never a silently different number"},
 		Run:         runC12,
 	})
 	c12Lit = eng.NewKind(c, "literal", judgeLit)
 	c12Huge = eng.NewKind(c, "huge-exponent", judgeHugeExp)
+	c12Hist = eng.NewKind(c, "runner-history", judgeHistLit)
 }
 
 // refEvalNum evaluates a reference tree made of number literals, prefix +/- and binary + -.
@@ -214,6 +217,41 @@ func judgeHugeExp(c LitCase) *eng.Fail {
 
 var c12Huge *eng.Kind[LitCase]
 
+// HistLitCase: formulas evaluated one after the other by one runner.
+type HistLitCase struct {
+	Srcs []string `json:"srcs"`
+}
+
+var c12Hist *eng.Kind[HistLitCase]
+
+// formulas whose literals occupy the same places of the text, with different values
+var c12HistLits = []string{"7", "9", "100 + 25", "100 + 75", "0.5 * 4", "1e2 + 25", "[7]", "[9]", ".5", "5.", "1_0", "10", "-7", "-9", "07", "7.0", "7e0", "f(7)", "f(9)", "x?7:9", "x?9:7"}
+
+func judgeHistLit(c HistLitCase) *eng.Fail {
+	data := map[string]interface{}{"f": goodFunc, "x": true}
+	r := formula.NewRunner()
+	r.SetThis(data)
+	for i, src := range c.Srcs {
+		fresh, perr := evalSrc(src, data)
+		if perr != nil {
+			return eng.F("harness/case", "%q does not parse: %v", src, perr)
+		}
+		p := safeParse([]byte(src))
+		if p.panicked || p.err != nil {
+			return eng.F("C12/history-parse", "%q parsed the first time and not the second: %v %s", src, p.err, p.panicMsg)
+		}
+		o := safeResolve(r, bg, p.src.Expression)
+		if o.panicked || fresh.panicked {
+			return eng.F("C12/panic", "%q: %s%s", src, o.panicMsg, fresh.panicMsg)
+		}
+		if (o.err == nil) != (fresh.err == nil) || show(o.val) != show(fresh.val) {
+			return eng.F("C12/history-value", "a runner that evaluated %q before gives %s (%v) for %q (step %d); a fresh runner gives %s (%v)", c.Srcs[:i], show(o.val), o.err, src, i+1, show(fresh.val), fresh.err)
+		}
+		outcome(show(o.val))
+	}
+	return nil
+}
+
 var litAlpha = []string{"0", "5", ".", "e", "+", "-", "_", "a", "x"}
 
 func runC12(w *eng.W) {
@@ -349,6 +387,46 @@ func runC12(w *eng.W) {
 					b += "." + fp
 				}
 				bases = append(bases, b+ep)
+			}
+		}
+	}
+	// long digit groups with a separator (pieces between separators collected in a fixed-size buffer have
+	// their edge at a power of two): one separator at every position, and together with a second one
+	// right after the first digit
+	for _, n := range []int{20, 31, 32, 33, 34, 40, 63, 64, 65, 128, 129, 257} {
+		for _, g := range []string{"1" + strings.Repeat("0", n-1), strings.Repeat("1234567890", n/10+1)[:n], strings.Repeat("0", n-3) + "125"} {
+			for _, b := range []string{g, "0." + g, g + "." + g, "5e" + strings.Repeat("0", n-1) + "2", g + "e-" + strings.Repeat("0", n-2) + "12"} {
+				if !w.Take() {
+					continue
+				}
+				for i := 1; i < len(b); i++ {
+					emit("separators-long", b[:i]+"_"+b[i:])
+					if i > 2 && b[1] >= '0' && b[1] <= '9' {
+						emit("separators-long", b[:1]+"_"+b[1:i]+"_"+b[i:])
+					}
+				}
+			}
+		}
+	}
+	// histories: one runner evaluates several formulas one after the other; what a literal denotes does
+	// not depend on what that runner evaluated before (compared with a fresh runner for each)
+	hl := c12HistLits
+	for i := range hl {
+		for j := range hl {
+			if !w.Take() {
+				continue
+			}
+			for k := -1; k < len(hl); k++ {
+				hc := HistLitCase{Srcs: []string{hl[i], hl[j]}}
+				if k >= 0 {
+					hc.Srcs = append(hc.Srcs, hl[k])
+				}
+				w.State(int64(len(hc.Srcs)))
+				w.Trans(int64(len(hc.Srcs)))
+				w.Trace(1)
+				w.Note("leg:runner-history", 1)
+				w.Sample("runner-history", hc)
+				c12Hist.Do(w, hc)
 			}
 		}
 	}
